@@ -12,7 +12,7 @@ from finam.errors import FinamDataError, FinamMetaDataError
 
 CATALOGUE = [
     "m", "km", "mm", "cm", "s", "h", "d", "kg", "g", "m/s", "km/h", "mm/d", "m s-1", "kg m-2 s-1", "mm/s",
-    "m2", "ha", "m**3/s", "L/s", "Pa", "hPa", "N/m**2", "W/m**2", "J", "degC", "K", "degF", "%", "1", "",
+    "m2", "ha", "L/m**2", "m**3/s", "L/s", "Pa", "hPa", "N/m**2", "W/m**2", "J", "degC", "K", "degF", "%", "1", "",
     "percent", "dimensionless", "g/cm**3", "kg/m**3",
 ]
 
@@ -188,7 +188,8 @@ ASSUMPTIONS = ["pint is the oracle for (compatible, factor, offset) of each cata
 def families(tier):
     q = tier == "quick"
     cat = CATALOGUE
-    small = ["m", "km", "s", "degC", "K", "%", "1", "", "mm/d", "m s-1", "kg m-2 s-1", "hPa", "Pa"]
+    small = ["m", "km", "s", "degC", "K", "%", "1", "", "mm/d", "m s-1", "kg m-2 s-1", "hPa", "Pa", "mm", "L/m**2",
+             "N/m**2"]
     pairs = _all_pairs(small if q else cat)
     fams = [
         dict(name="memo:induction", ref="vf.props.c17:h_memo",
